@@ -279,3 +279,43 @@ def u_close(c):
         n0 = len(closes)
         st, _ = run(it, it.getattr(leaves[0], "close"), [])
         c.prove("ensures/non-root-close-is-noop", st == "ok" and len(closes) == n0)
+
+
+@unit("Total.record", ["C07"], [I + ":Total.__init__", I + ":BaseAccumulator.__init__", I + ":BaseAccumulator.fork", I + ":Total.log", I + ":Total.close",
+                               I + ":Total.leaves", I + ":BaseAccumulator.build", S + ":Call.all_captures", S + ":Element.all_captures"])
+def u_total_record(c):
+    """Through the real constructors and a real Call selector f(a, b): the per-activation fork of a total accumulator starts
+    with NO captures; after logging values for a subset of the names, close() delivers one record iff every captured
+    variable was bound, containing all its values in order -- and delivers nothing otherwise."""
+    it = Interp(c)
+    Element = it.get_global(S, "Element")
+    Call = it.get_global(S, "Call")
+    ea = it.call(Element, [], dict(name="a", capture="a"))
+    eb = it.call(Element, [], dict(name="b", capture="b"))
+    fnobj = SymObj("f", Val.ref(z3.IntVal(c.new_id())))
+    sel = it.call(Call, [], dict(element=it.call(Element, [], dict(name=fnobj)), captures=(ea, eb)))
+    records = []
+    cl = SummaryFn("close-handler", lambda it_, a, k: records.append(a[0]))
+    tmpl = it.call(it.get_global(I, "Total"), [sel, cl], {})
+    st, root = run(it, it.getattr(tmpl, "fork"), [])
+    c.prove("fork/no-raise", st == "ok")
+    c.prove("fork/starts-with-no-captures", root.fields["captures"] == {} and root.fields["names"] == {"a", "b"})
+    logged = {"a": [], "b": []}
+    for step in range(3):
+        w = c.choose(3, "log")
+        if w == 0:
+            break
+        nm = "a" if w == 1 else "b"
+        v = c.val(f"v{step}")
+        it.call(it.getattr(root, "log"), [ea if nm == "a" else eb, nm, None, v], {})
+        logged[nm].append(v)
+    st, _ = run(it, it.getattr(root, "close"), [])
+    c.prove("close/no-raise", st == "ok")
+    complete = bool(logged["a"]) and bool(logged["b"])
+    c.prove("close/one-record-iff-every-variable-was-bound", len(records) == (1 if complete else 0))
+    if complete and len(records) == 1:
+        rec = records[0]
+        ok = isinstance(rec, dict) and set(rec) == {"a", "b"} and all(
+            len(rec[n].fields["values"]) == len(logged[n]) and all(x is y for x, y in zip(rec[n].fields["values"], logged[n])) for n in ("a", "b"))
+        c.prove("close/record-holds-all-values-in-order", ok)
+    c.prove("frame/template-untouched", tmpl.fields["captures"] == {} and tmpl.fields["children"] == [])
